@@ -32,6 +32,7 @@ func specAddr(netID uint32, old uint32) (addr uint32, typ uint, prefixLen uint, 
 
 func runC11(r *engine.Run) {
 	r.Rule = "E1 product enumeration: NetID x DevAddr through SetAddrPrefix/IsNetID/NwkID/NetIDType against the addressing rule written from the specification (quick: per type every value of the low (NwkID width+2) ID bits with the remaining ID bits all-zero and all-one; thorough: all 2^24 NetIDs), each with 16 previous addresses; IsNetID additionally on every single-bit flip of the result. Identifier representations: position-distinct values and per-position byte sweeps through text/binary/Value/Scan, and wrong-length / malformed inputs. Non-trivial: a (NetID, DevAddr) pair whose result was compared with the rule; every pair is distinct by construction of the product."
+	c11History(r)
 	r.Assume("DevAddr dimension is a 16-value alphabet (zero, ones, alternating, one per type prefix, low/high NwkAddr bits); SetAddrPrefix reads the old address only through a mask, which the bit-flip checks pin for every bit position")
 
 	devAddrs := []uint32{0x00000000, 0xFFFFFFFF, 0xAAAAAAAA, 0x55555555, 0x01020304, 0x80000001, 0xC0000002, 0xE0000004, 0xF0000008, 0xF8000010, 0xFC000020, 0xFE000040, 0x00FFFFFF, 0x7F000000, 0x0000007F, 0x12345678}
@@ -316,4 +317,89 @@ func runC11(r *engine.Run) {
 	for t := 0; t < 8; t++ {
 		r.Guard(r.OutcomeCount(fmt.Sprintf("type%d", t)) > 0, "NetID type %d exercised", t)
 	}
+}
+
+// c11History: the addressing calls and identifier text forms as a history alphabet.
+func c11History(r *engine.Run) {
+	var ops []HOp
+	for typ := uint32(0); typ < 8; typ++ {
+		for _, low := range []uint32{0x2d, 0x12} {
+			nid := typ<<21 | low
+			netID := lorawan.NetID{byte(nid >> 16), byte(nid >> 8), byte(nid)}
+			want, _, _, _ := specAddr(nid, 0x01020304)
+			var own lorawan.DevAddr
+			binary.BigEndian.PutUint32(own[:], want)
+			ops = append(ops,
+				HOp{fmt.Sprintf("SetAddrPrefix(%06x)", nid), func(HCtx) interface{} {
+					a := lorawan.DevAddr{1, 2, 3, 4}
+					a.SetAddrPrefix(netID)
+					problem := ""
+					if a != own {
+						problem = fmt.Sprintf("NetID %06x: SetAddrPrefix gives %x, addressing rule %x", nid, a[:], own[:])
+					}
+					return &hChecked{a, problem}
+				}},
+				HOp{fmt.Sprintf("IsNetID(%06x,own-address)", nid), func(HCtx) interface{} {
+					ok := own.IsNetID(netID)
+					problem := ""
+					if !ok {
+						problem = fmt.Sprintf("DevAddr %x is not recognised as an address of NetID %06x", own[:], nid)
+					}
+					return &hChecked{ok, problem}
+				}},
+			)
+			// the same address against the NetIDs of every other type with the same ID bits
+			for other := uint32(0); other < 8; other++ {
+				if other == typ {
+					continue
+				}
+				onid := other<<21 | low
+				oNetID := lorawan.NetID{byte(onid >> 16), byte(onid >> 8), byte(onid)}
+				ops = append(ops, HOp{fmt.Sprintf("IsNetID(%06x,address-of-%06x)", onid, nid), func(HCtx) interface{} {
+					ok := own.IsNetID(oNetID)
+					problem := ""
+					if ok {
+						problem = fmt.Sprintf("DevAddr %x (NetID %06x) is accepted as an address of NetID %06x", own[:], nid, onid)
+					}
+					return &hChecked{ok, problem}
+				}})
+			}
+		}
+	}
+	text := func(name string, f func() ([]byte, error)) {
+		ops = append(ops, HOp{name, func(HCtx) interface{} {
+			b, err := f()
+			return []interface{}{b, errS(err)}
+		}})
+	}
+	for i, seed := range []byte{0x01, 0xA0} {
+		var e lorawan.EUI64
+		var d lorawan.DevAddr
+		var n lorawan.NetID
+		var k lorawan.AES128Key
+		for j := range e {
+			e[j] = seed + byte(j)
+		}
+		for j := range d {
+			d[j] = seed + 0x10 + byte(j)
+		}
+		for j := range n {
+			n[j] = seed + 0x20 + byte(j)
+		}
+		for j := range k {
+			k[j] = seed + 0x30 + byte(j)
+		}
+		text(fmt.Sprintf("EUI64#%d.MarshalText", i), e.MarshalText)
+		text(fmt.Sprintf("DevAddr#%d.MarshalText", i), d.MarshalText)
+		text(fmt.Sprintf("NetID#%d.MarshalText", i), n.MarshalText)
+		text(fmt.Sprintf("AES128Key#%d.MarshalText", i), k.MarshalText)
+		text(fmt.Sprintf("EUI64#%d.MarshalBinary", i), e.MarshalBinary)
+		text(fmt.Sprintf("DevAddr#%d.MarshalBinary", i), d.MarshalBinary)
+	}
+	d := 2
+	if r.Thorough() {
+		d = 3
+	}
+	r.Rule += historyRule + fmt.Sprintf(" Addressing alphabet: for the 16 NetIDs {type 0..7} x {two ID values whose low bits coincide across types}: SetAddrPrefix, IsNetID on the own address, IsNetID of the own address against the NetID of every other type with the same ID bits; text and binary forms of two values of each identifier type; all sequences of <= %d calls.", d)
+	historyPart(r, "history/addressing", ops, d)
 }
